@@ -117,6 +117,13 @@ def attr_val(v, cx):
         return '="' + syms_text(v["syms"]) + '"'
     if k == "expr":
         return "={" + expr(v["e"], cx) + "}"
+    if k == "arr":
+        parts = [expr(v["v"], cx)]
+        if v["hasArg"]:
+            parts.append(expr(v["arg"], cx))
+        if v["hasMods"]:
+            parts.append("[" + ", ".join(json.dumps(m) for m in v["mods"]) + "]")
+        return "={[" + ", ".join(parts) + "]}"
     if k == "elem":
         return "=" + elem(v["el"], cx)
     if k == "empty":
